@@ -50,7 +50,11 @@ ALL_METHODS = list(METHODS)
 ADAPTIVE = [m for m in ALL_METHODS if METHODS[m][2] is not None]
 CONSTANT_ONLY = [m for m in ALL_METHODS if METHODS[m][2] is None]
 SUITE_METHODS = {"crank_nicolson", "sdirk3", "ros3p", "esdirk34"}
-ORDER_TOL = 1e-9          # the tables carry >= 10 significant digits
+# tolerance of the order conditions = precision to which the source states the coefficients:
+# ROS3P carries 10 digits, the two SDIRK3 tableaux 12 digits (gamma, xi), all others full double precision
+# (worst residual observed: 1.5e-10, 3.2e-13 and 1.0e-15 respectively)
+ORDER_TOL = {"ros3p": 1e-9, "sdirk3": 1e-11, "sdirk3_b": 1e-11}
+ORDER_TOL_DEFAULT = 1e-13
 K_ROUND = 64.0            # safety factor on the a-priori rounding bound of the reference
 K_NEWTON = 4.0            # safety factor on the a-priori bound derived from Newton's stopping rule
 TRAPEZOIDAL = [[0.0, 0.0], [0.5, 0.5], [0.5, 0.5]]
@@ -143,17 +147,18 @@ def check_tableau(spec, ctx):
         ctx.equal("err_order", sch["err_order"], p_emb, "err_order of %s (documented order of the embedded rule)" % name)
     failures = {}
     worst = 0.0
+    otol = ORDER_TOL.get(name, ORDER_TOL_DEFAULT)
     for label, w, p in (("main", b, p_main), ("emb", bh, p_emb)):
         if w is None:
             continue
         res = rk.order_residuals(A, w, p, G)
         for t, v in res.items():
             worst = max(worst, abs(v))
-            if not abs(v) <= ORDER_TOL:
+            if not abs(v) <= otol:
                 failures["%s:%s" % (label, rk.tree_name(t))] = v
-        att = rk.attained_order(A, w, G, ORDER_TOL, maxorder=5)
+        att = rk.attained_order(A, w, G, otol, maxorder=5)
         ctx.flag("%s_%s_attains_%d" % (name, label, att))
-    ctx.ratio("order_conditions", worst / ORDER_TOL if not failures else 0.0)
+    ctx.ratio("order_conditions", worst / otol if not failures else 0.0)
     ctx.flag("stages_%d" % s, kind)
     ctx.nontrivial = True
     if failures:
@@ -726,7 +731,7 @@ def strat_newton(draw):
 SUBCHECKS = [
     Sub("tableaux", check_tableau, enum=enum_tableaux, quick=0, thorough=0, shards=4,
         rule="all 12 shipped tableaux x all rooted trees up to the documented order (main and embedded weights), "
-             "exact rational arithmetic, tolerance 1e-9", floor=11),
+             "exact rational arithmetic, tolerance = stated precision of the coefficients (1e-9 / 1e-11 / 1e-13)", floor=11),
     Sub("step", check_step, strategy=lambda tier: strat_step(), enum=enum_step, quick=3000, thorough=100000,
         rule="12 shipped + random user DIRK/ROW tableaux x M (None/identity/dense/csr/csc/diagonal) x linear "
              "(dissipative stiff..non-stiff, general, constant) and nonlinear F x tau in [1e-3,1] with tau|F(x)| in [0.1,10]",
